@@ -38,7 +38,13 @@ def run_tests(work, crate, tests, timeout=1800, log=None, thorough=False):
     # panic messages of failing tests:  ---- path::name stdout ----  ...  (until next ---- or 'failures:')
     for m in re.finditer(r'^---- (\S+) stdout ----\n(.*?)(?=^---- |^failures:|^successes:)', out, re.M | re.S):
         if m.group(1) in res:
-            res[m.group(1)]['message'] = m.group(2).strip()[:(400000 if '\ncase=' in m.group(2) else 3000)]
+            txt = m.group(2).strip()
+            if '\ncase=' not in txt:
+                # the obligation line of the test thread may come after the backtrace of a worker thread that panicked first
+                k = txt.find('\nOB ')
+                if k > 2500:
+                    txt = txt[:600] + '\n[...]' + txt[k:]
+            res[m.group(1)]['message'] = txt[:(400000 if '\ncase=' in txt else 3000)]
     build_failed = 'error: could not compile' in out or re.search(r'^error(\[E\d+\])?:', out, re.M) is not None and not res
     return {'rc': rc, 'out': out, 'wall_s': time.time() - t0, 'cmd': 'RUSTFLAGS="--cfg verif_nx" ' + ' '.join(cmd), 'tests': res,
             'build_failed': bool(build_failed), 'timeout': rc == -9}
